@@ -39,7 +39,7 @@ var nilErr = Iface{}
 
 func strArg(v Value) (string, bool) {
 	s, ok := v.(Str)
-	if !ok || s.Code != nil || s.FNum != nil {
+	if !ok || s.Code != nil || s.FNum != nil || s.Fmt != nil {
 		return "", false
 	}
 	if s.Num != nil {
@@ -107,15 +107,35 @@ func (e *Engine) sprintf(st *State, format Value, args Value) Str {
 		return Str{S: "<fmt>"}
 	}
 	var gos []interface{}
+	var syms []*smt.Term
 	for _, a := range e.sliceElems(st, args) {
 		g, ok := goValue(a)
 		if !ok {
+			// a symbolic integer under %d becomes a placeholder of a template string
+			if iv, isI := a.(Iface); isI {
+				if t, isT := iv.V.(*smt.Term); isT && t.Sort == smt.BV64 {
+					syms = append(syms, t)
+					gos = append(gos, symPlaceholder{})
+					continue
+				}
+			}
 			return Str{S: "<fmt:" + fs + ">"}
 		}
 		gos = append(gos, g)
 	}
+	if len(syms) > 0 {
+		if strings.Count(fs, "%d") < len(syms) || strings.Contains(fs, "%v") || strings.Contains(fs, "%+v") {
+			return Str{S: "<fmt:" + fs + ">"}
+		}
+		return Str{S: fmt.Sprintf(fs, gos...), Fmt: syms}
+	}
 	return Str{S: fmt.Sprintf(fs, gos...)}
 }
+
+// symPlaceholder renders as a NUL byte under any verb: the position of a symbolic integer.
+type symPlaceholder struct{}
+
+func (symPlaceholder) Format(f fmt.State, verb rune) { _, _ = f.Write([]byte{0}) }
 
 func sortNetwork(ts []*smt.Term, signed bool) []*smt.Term {
 	out := append([]*smt.Term(nil), ts...)
@@ -483,12 +503,21 @@ func registerIntercepts(e *Engine) {
 	joinFn := func(join func(...string) string) Intercept {
 		return func(c *CallCtx, st *State, args []Value) []Outcome {
 			var parts []string
+			var syms []*smt.Term
 			for _, v := range c.E.sliceElems(st, args[0]) {
+				if sv, isS := v.(Str); isS && sv.Fmt != nil {
+					parts = append(parts, sv.S)
+					syms = append(syms, sv.Fmt...)
+					continue
+				}
 				s, ok := strArg(v)
 				if !ok {
 					return one(st, Str{S: "<pathjoin>"})
 				}
 				parts = append(parts, s)
+			}
+			if syms != nil {
+				return one(st, Str{S: join(parts...), Fmt: syms})
 			}
 			return one(st, Str{S: join(parts...)})
 		}
